@@ -454,13 +454,9 @@ func getWorld() (*world, error) {
 		caddy.DefaultStorage.Path = dir + "/data"
 		up := httptest.NewServer(http.HandlerFunc(upstreamHandler))
 		upstreamAddr = strings.TrimPrefix(up.URL, "http://")
-		ln, err := net.Listen("tcp", "127.0.0.1:0")
-		if err != nil {
-			worldErr = err
-			return
-		}
-		deadAddr = ln.Addr().String()
-		ln.Close()
+		// a port nothing listens on, and that no other process on this machine can come to listen on
+		// while the stream runs (an ephemeral port that was free a moment ago can be taken again)
+		deadAddr = "127.0.0.1:1"
 		var cfg caddy.Config
 		if err := json.Unmarshal([]byte(configJSON()), &cfg); err != nil {
 			worldErr = err
